@@ -163,7 +163,8 @@ def matchGo (fcs : List (List BPt)) (rest : List Contour) (allFwd allBwd : Bool)
 /-- Greedy matching of font contours to source contours. Returns an error message, or whether every match was
     possible in the same direction / in the reversed direction. -/
 def matchDrawings (fcs : List (List BPt)) (scs : List Contour) : Except String (Bool × Bool) :=
-  if fcs.length != scs.length then .error s!"contour count: font {fcs.length} vs source {scs.length}"
+  if fcs.length != scs.length then
+    .error s!"contour count: font {if fcs.length < scs.length then "fewer" else "more"}: {fcs.length} vs source {scs.length}"
   else matchGo fcs scs true true
 
 /-! ### Model correspondence: how each glyph is stored -/
@@ -217,7 +218,7 @@ def knownClasses : List String :=
 
 /-- Does the drawing contain the same contour twice (same base reached twice with the same accumulated
     transform)?  Then convert_components_to_contours' `visited` set may drop one of the visits, depending on the
-    iteration order of a HashMap (glyph.rs:139, 431). -/
+    iteration order of a HashMap (glyph.rs:139, 454). -/
 def hasDuplicateContour (cs : List Contour) : Bool :=
   cs.zipIdx.any fun (c, i) => !c.isEmpty && (cs.drop (i + 1)).contains c
 
@@ -243,7 +244,8 @@ def closure (G : Env) (fuel : Nat) (n : String) : List String := reachable G fue
 
 def classify (d : Design) (fl : Flags) (st : State) (srcG : Env) (names : List String) (n : String) (loc : List Rat)
     (dup : Bool) (msg : String) : String :=
-  if dup && msg.startsWith "contour count" then "decompose-dedups-duplicate-visit"
+  -- fewer contours than the source, and the source drawing contains the same contour twice
+  if dup && msg.startsWith "contour count: font fewer" then "decompose-dedups-duplicate-visit"
   else if fl.flatten && !fl.decomposeAll then
     -- (A) the flattened glyph (exact model state) has a composed 2×2 entry outside [-2, 2]: fontbe saturates it
     let reach := closure st.env (st.names.length + 1) n
@@ -253,9 +255,12 @@ def classify (d : Design) (fl : Flags) (st : State) (srcG : Env) (names : List S
       | some i => i.comps.any (·.t.overflows)
     if overflow then "flatten-overflow-saturated" else
     -- (B) `loc` is a master location of a glyph nested below `n` but not of `n` itself
+    --     that is itself a composite (the nesting flatten removes), and `n` is stored as a composite
     let hasMaster (g : String) := d.masters.any fun m => m.nloc == loc && (m.glyph? g).isSome
-    let nested := (closure srcG (names.length + 1) n).any fun m => m != n && hasMaster m
-    if !hasMaster n && nested then "flatten-loses-nested-master" else "resolved-outline-differs"
+    let isComposite (g : String) := match srcG g with | some i => !i.comps.isEmpty | none => false
+    let nested := (closure srcG (names.length + 1) n).any fun m => m != n && hasMaster m && isComposite m
+    let stored := match st.env n with | some i => !i.comps.isEmpty | none => false
+    if !hasMaster n && nested && stored then "flatten-loses-nested-master" else "resolved-outline-differs"
   else "resolved-outline-differs"
 
 /-- The side conditions under which FontcProps.C12 `Step` covers the run of `process` on this input, evaluated:
@@ -383,8 +388,9 @@ def handle : Handler := fun s =>
       let nt := maxDepthSrc ≥ 1 && (hasT || hasMixed || neUsed || maxDepthSrc ≥ 2)
       match rejected, bad with
       | some (bits, _, msg), _ =>
-        let cls := if !dupGlyphs.isEmpty && (msg.splitOn "interpolation-incompatible").length > 1
-          then "decompose-dedups-duplicate-visit" else "valid-source-rejected"
+        -- the random rejection names a glyph whose source drawing contains the same contour twice
+        let named := dupGlyphs.any fun g => (msg.splitOn s!"'{g}' has interpolation-incompatible paths").length > 1
+        let cls := if named then "decompose-dedups-duplicate-visit" else "valid-source-rejected"
         { corr := corr, oracle := some false, nontrivial := nt, cls, tags,
           detail := s!"{flagWord bits}: {msg}" }
       | none, some b =>
@@ -479,7 +485,7 @@ def handlePure : Handler := fun s =>
             if advanceOf iG n != advanceOf G n then some ("advance-differs", s!"glyph {n} location {l}: {repr (advanceOf iG n)} vs {repr (advanceOf G n)}")
             else match matchDrawings gotB src with
               | .error msg =>
-                let cls := if hasDuplicateContour src && msg.startsWith "contour count" then "decompose-dedups-duplicate-visit"
+                let cls := if hasDuplicateContour src && msg.startsWith "contour count: font fewer" then "decompose-dedups-duplicate-visit"
                   else "resolved-outline-differs"
                 some (cls, s!"{flagWord bits} glyph {n} location {l}: {msg}")
               | .ok _ => none)
